@@ -258,6 +258,8 @@ def c16e(ctx):
                 return None
         return inc, dec
     n = 0
+    radt = next((v for k, v in prog.adts.items() if k.endswith("tiny_lfu::lru::Region")), None)
+    region_names = [v["name"] for v in radt["variants"]] if radt else []
     for b in prog.all_bodies(["qbice_storage"]):
         if not b.file.endswith("tiny_lfu/lru.rs") or not b.name.startswith("Lru::"):
             continue
@@ -274,8 +276,91 @@ def c16e(ctx):
         inc, dec = lu
         if un != dec or ph != inc:
             ctx.fail(o, Site(b, 0, 0), "%s: %d unlink / %d `lens -= 1`, %d push_head / %d `lens += 1` — the region lengths no longer mirror the lists" % (b.name, un, dec, ph, inc))
+        # which region: the counter that is decremented is the one of the list the node was unlinked from, the counter that is
+        # incremented the one of the list it was pushed to (compared by where the region value comes from)
+        def sig(op_):
+            out = set()
+            for x in df.origins_of_operand(b, op_):
+                if x.kind == "call":
+                    out.add(("call", (x.callee() or "").rsplit("::", 1)[-1]))
+                elif x.kind == "agg":
+                    v = x.site.node["rv"].get("variant")
+                    out.add(("region", region_names[int(v)] if v is not None and int(v) < len(region_names) else str(v)))
+                elif x.kind == "const":
+                    m_ = re.search(r"Region::([A-Za-z]+)", str(x.info))
+                    if m_:
+                        out.add(("region", m_.group(1)))   # `Region::X as usize` is folded to `X's discriminant + 0`
+                elif x.kind == "bin":
+                    pass
+                else:
+                    out.add((x.kind, str(x.info)))
+            return frozenset(out)
+        def idx_sigs(want):
+            sigs = []
+            for a in b.assigns(lambda st: any(e.startswith("f:lens") for e in st["lhs"][1])):
+                rv = a.node["rv"]
+                op_ = rv["op"] if rv["k"] == "bin" else None
+                if rv["k"] == "use":
+                    pl = df.op_place(rv["op"])
+                    for d in (b.assigns(lambda st, l=pl[0]: st["lhs"][0] == l and not st["lhs"][1] and st["rv"]["k"] == "bin") if pl else []):
+                        op_ = d.node["rv"]["op"]
+                if not op_ or not op_.startswith(want):
+                    continue
+                il = [int(e[3:]) for e in a.node["lhs"][1] if e.startswith("i:_")]
+                sigs.append(sig({"cp": [il[0], []]}) if il else frozenset([("const-index", str(a.node["lhs"][1]))]))
+            return sorted(sigs, key=sorted)
+        us = sorted((sig(s_.node["args"][2]) for s_ in b.calls_to(r"LruList::<K>::unlink$")), key=sorted)
+        ps = sorted((sig(s_.node["args"][2]) for s_ in b.calls_to(r"LruList::<K>::push_head$")), key=sorted)
+        if us != idx_sigs("Sub") or ps != idx_sigs("Add"):
+            ctx.fail(o, Site(b, 0, 0), "%s: the region whose length is decremented / incremented is not the region the node was unlinked from / pushed to "
+                     "(unlink %s vs `-= 1` %s; push_head %s vs `+= 1` %s)" % (b.name, [sorted(x) for x in us], [sorted(x) for x in idx_sigs("Sub")],
+                                                                                [sorted(x) for x in ps], [sorted(x) for x in idx_sigs("Add")]))
+        # flow: `unlink` and `-= 1` need the region the node is LEAVING; if they read it through the key's tag, the read has to
+        # happen before the tag is rewritten (assignment or mem::replace / swap)
+        tag_locals = {l for l in range(len(b.locals)) if re.search(r"&(?:'\w+ )?mut .*lru::Region$", str(b.local_ty(l)))}
+        def reborrows(l):
+            out, work = {l}, [l]
+            while work:
+                x = work.pop()
+                for a in b.assigns(lambda st, x=x: st["rv"]["k"] in ("ref", "use") and ((st["rv"].get("pl") or [None])[0] == x or op_local(st["rv"].get("op") or {}) == x)):
+                    if a.node["lhs"][0] not in out and not a.node["lhs"][1] and "mut" in str(b.local_ty(a.node["lhs"][0])) and "Region" in str(b.local_ty(a.node["lhs"][0])):
+                        out.add(a.node["lhs"][0])
+                        work.append(a.node["lhs"][0])
+            return out
+        all_tag = set()
+        for l in tag_locals:
+            all_tag |= reborrows(l)
+        writes = [a for a in b.assigns(lambda st: st["lhs"][0] in all_tag and st["lhs"][1][:1] == ["*"])]
+        writes += [s_ for s_ in b.calls_to(r"core::mem::(replace|swap|take)$") if op_local(s_.node["args"][0]) in all_tag]
+        def tag_reads(op_):
+            """sites where the operand's value is loaded from `*tag`"""
+            out, l = [], op_local(op_)
+            for a in b.assigns(lambda st, l=l: st["lhs"][0] == l and not st["lhs"][1]):
+                rv = a.node["rv"]
+                pl = df.op_place(rv["op"]) if isinstance(rv.get("op"), dict) else (rv.get("pl") if isinstance(rv.get("pl"), list) else None)
+                if pl is None:
+                    continue
+                if pl[0] in all_tag and pl[1][:1] == ["*"]:
+                    out.append(a)
+                elif not pl[1] and pl[0] != l:
+                    out += tag_reads({"cp": [pl[0], []]})
+            return out
+        leaving = [s_.node["args"][2] for s_ in b.calls_to(r"LruList::<K>::unlink$")]
+        for a in b.assigns(lambda st: any(e.startswith("f:lens") for e in st["lhs"][1])):
+            rv = a.node["rv"]
+            pl = df.op_place(rv["op"]) if rv["k"] == "use" else None
+            isdec = rv["k"] == "bin" and rv["op"].startswith("Sub") or (pl is not None and any(
+                d.node["rv"]["op"].startswith("Sub") for d in b.assigns(lambda st, l=pl[0]: st["lhs"][0] == l and not st["lhs"][1] and st["rv"]["k"] == "bin")))
+            if isdec:
+                leaving += [{"cp": [int(e[3:]), []]} for e in a.node["lhs"][1] if e.startswith("i:_")]
+        for op_ in leaving:
+            for r_ in tag_reads(op_):
+                if any(b.site_dominates(w_, r_) for w_ in writes):
+                    ctx.fail(o, r_, "%s reads the region a node is leaving from the key's tag AFTER the tag was rewritten: the node is unlinked from / the length is "
+                             "taken off the region it is moving TO; the source region's length never drops and the policy admits entries beyond the capacity" % b.name)
         if un and ph:
             tags = b.assigns(lambda st: st["lhs"][1] and st["lhs"][1][0] == "*" and "Region" in str(b.local_ty(st["lhs"][0])))
+            tags += [s_ for s_ in b.calls_to(r"core::mem::(replace|swap)$") if "Region" in str(s_.node["fn"].get("gargs", "")) or True]
             if len(tags) < min(un, ph):
                 ctx.fail(o, Site(b, 0, 0), "%s moves a node between regions without rewriting the region tag of its key" % b.name)
     o.sites = n
